@@ -11,6 +11,8 @@ import (
 	"context"
 	"errors"
 	"fmt"
+	"strings"
+	"sync"
 	"testing"
 	"testing/synctest"
 	"time"
@@ -375,7 +377,7 @@ func c03Control(rt *rapid.T) {
 
 // TestC03Wire: what a connection writes to the socket for a message is exactly msg.ToBytes().
 func TestC03Wire(t *testing.T) {
-	ev.Rule("a Selected connection (both roles) sends generated messages through ForwardDataMessage / ForwardDataMessageAsync (exact bytes known), SendDataMessage / SendDataMessageAsync / SendSECS2Message / ReplyDataMessage (bytes known up to the library-chosen system bytes / session id, read back at their E37 positions); the raw peer compares the bytes it reads; non-trivial = body non-empty")
+	ev.Rule("a Selected connection (both roles) sends generated messages through ForwardDataMessage / ForwardDataMessageAsync (exact bytes known; the forwarded message is built with its header, or re-stamped to it from a message built or wire-decoded with another header, or decoded from the wire), SendDataMessage / SendDataMessageAsync / SendSECS2Message / ReplyDataMessage (bytes known up to the library-chosen system bytes / session id, read back at their E37 positions); the raw peer compares the bytes it reads; non-trivial = body non-empty")
 	vt.Bubble(t, func(t *testing.T) {
 		vt.CheckBubble(t, 8000, 400000, func(rt *rapid.T) {
 			active := rapid.Bool().Draw(rt, "active")
@@ -422,12 +424,49 @@ func TestC03Wire(t *testing.T) {
 				case "Forward", "ForwardAsync":
 					wbit := function%2 == 1 && rapid.Bool().Draw(rt, "w")
 					fs, fy := genHeaderWord16(rt, "fsession"), 0xF0000000|genHeaderWord32(rt, "fsys")>>4
-					m, merr := hsms.NewDataMessage(stream, function, wbit, fs, sysArr(fy), item)
-					if merr != nil {
-						rt.Fatalf("VERIF-INFRA: %v", merr)
+					// where the forwarded message comes from: built with its final header, or re-stamped to it
+					// (WithSessionID + WithSystemBytes / WithID) from a message built with ANOTHER header or
+					// decoded from another header's wire frame - what goes on the socket must be the
+					// re-stamped header, not anything remembered from the source
+					origin := rapid.SampledFrom([]string{"built", "built", "restamped", "decoded-restamped", "decoded"}).Draw(rt, "origin")
+					var m *hsms.DataMessage
+					var merr error
+					switch origin {
+					case "built":
+						m, merr = hsms.NewDataMessage(stream, function, wbit, fs, sysArr(fy), item)
+					case "decoded":
+						var dm hsms.Message
+						if dm, merr = hsms.DecodeHSMSMessage(e37.DataFrame(fs, stream, function, wbit, fy, bodyBytes).Bytes()); merr == nil {
+							m, _ = dm.ToDataMessage()
+						}
+					default:
+						os, oy := fs^0x5a5a, fy^0x00a5a5a5
+						var src *hsms.DataMessage
+						if origin == "restamped" {
+							src, merr = hsms.NewDataMessage(stream, function, wbit, os, sysArr(oy), item)
+						} else {
+							var dm hsms.Message
+							if dm, merr = hsms.DecodeHSMSMessage(e37.DataFrame(os, stream, function, wbit, oy, bodyBytes).Bytes()); merr == nil {
+								src, _ = dm.ToDataMessage()
+							}
+						}
+						if merr == nil {
+							if rapid.Bool().Draw(rt, "srcSerializedFirst") {
+								_ = src.ToBytes()
+							}
+							if rapid.Bool().Draw(rt, "withID") {
+								m = src.WithSessionID(fs).WithID(fy)
+							} else {
+								m = src.WithSystemBytes(sysArr(fy)).WithSessionID(fs)
+							}
+						}
 					}
+					if merr != nil || m == nil {
+						rt.Fatalf("VERIF-INFRA: building the message to forward (%s): %v", origin, merr)
+					}
+					entry += "/" + origin
 					want, exact = e37.DataFrame(fs, stream, function, wbit, fy, bodyBytes), true
-					if entry == "Forward" {
+					if strings.HasPrefix(entry, "Forward/") {
 						callErr = w.conn.ForwardDataMessage(ctx, m)
 					} else {
 						callErr = w.conn.ForwardDataMessageAsync(ctx, m)
@@ -481,8 +520,110 @@ func TestC03Wire(t *testing.T) {
 				}
 				ev.Case(len(bodyBytes) > 0, fmt.Sprint(entry, stream, function, len(bodyBytes), gf.Sys, role), func() any {
 					return fmt.Sprintf("%s (%s) wrote %v", entry, role, gf)
-				}, "c03:wire:"+entry, "c03:wire:"+role)
+				}, "c03:wire:"+strings.SplitN(entry, "/", 2)[0], "c03:wire:"+role, "c03:wire-entry:"+entry)
 			}
 		})
+	})
+}
+
+// TestC03Concurrent: the FIRST serialization of a message happens on several goroutines at once -
+// the message itself and re-stamped copies that share its body. Every goroutine must get exactly the
+// reference frame of ITS header (built with -race: an unsynchronized encode-once is reported even
+// when the interleaving happens to produce the right bytes).
+func TestC03Concurrent(t *testing.T) {
+	ev.Rule("(stream, function, W, session, system bytes, body tree up to 6 kB) -> NewDataMessage or a wire-decoded message; 2-8 goroutines start together and each serializes the message or a re-stamped copy (WithSessionID / WithSystemBytes / WithID, made before or inside the goroutine) through ToBytes (optionally after AppendBodyTo) for the first time; oracle: every result equals the reference E37 frame of that copy's header; race detector on; non-trivial = body non-empty and >= 2 goroutines serialize copies with different headers")
+	vt.Check(t, 1500, 60000, func(rt *rapid.T) {
+		body := gen.Value(rt, gen.Opts{MaxDepth: 5, Budget: 6000, NoBigCounts: true})
+		bodyBytes := e5.Encode(body)
+		stream := byte(rapid.IntRange(0, 127).Draw(rt, "stream"))
+		function := byte(rapid.IntRange(0, 255).Draw(rt, "function"))
+		wbit := function%2 == 1 && rapid.Bool().Draw(rt, "w")
+		session, sys := genHeaderWord16(rt, "session"), genHeaderWord32(rt, "sys")
+		var m *hsms.DataMessage
+		if rapid.Bool().Draw(rt, "decoded") {
+			dm, err := hsms.DecodeHSMSMessage(e37.DataFrame(session, stream, function, wbit, sys, bodyBytes).Bytes())
+			if err != nil {
+				rt.Fatalf("C03 violated: a reference frame was rejected: %v", err)
+			}
+			m, _ = dm.ToDataMessage()
+		} else {
+			var err error
+			if m, err = hsms.NewDataMessage(stream, function, wbit, session, sysArr(sys), gen.Build(rt, body, nil)); err != nil {
+				rt.Fatalf("VERIF-INFRA: %v", err)
+			}
+		}
+		n := rapid.IntRange(2, 8).Draw(rt, "goroutines")
+		type plan struct {
+			kind    int // 0 the message itself, 1 WithSessionID, 2 WithSystemBytes, 3 WithID
+			early   bool
+			appendT bool
+			s       uint16
+			y       uint32
+			msg     *hsms.DataMessage
+		}
+		plans := make([]*plan, n)
+		headers := map[string]bool{}
+		for i := range plans {
+			pl := &plan{kind: rapid.IntRange(0, 3).Draw(rt, "kind"), early: rapid.Bool().Draw(rt, "copyMadeEarly"), appendT: rapid.Bool().Draw(rt, "appendTo"), s: session, y: sys}
+			switch pl.kind {
+			case 1:
+				pl.s = genHeaderWord16(rt, "s2")
+			case 2, 3:
+				pl.y = genHeaderWord32(rt, "y2")
+			}
+			headers[fmt.Sprint(pl.s, pl.y)] = true
+			plans[i] = pl
+		}
+		restamp := func(pl *plan) *hsms.DataMessage {
+			switch pl.kind {
+			case 1:
+				return m.WithSessionID(pl.s)
+			case 2:
+				return m.WithSystemBytes(sysArr(pl.y))
+			case 3:
+				return m.WithID(pl.y)
+			}
+			return m
+		}
+		for _, pl := range plans {
+			if pl.early {
+				pl.msg = restamp(pl)
+			}
+		}
+		results := make([][]byte, n)
+		start := make(chan struct{})
+		var wg sync.WaitGroup
+		for i, pl := range plans {
+			wg.Add(1)
+			go func(i int, pl *plan) {
+				defer wg.Done()
+				<-start
+				msg := pl.msg
+				if msg == nil {
+					msg = restamp(pl)
+				}
+				if pl.appendT {
+					// body first through AppendBodyTo, then the frame: both must agree
+					b := msg.AppendBodyTo(make([]byte, 0, 16))
+					results[i] = msg.ToBytes()
+					if len(results[i]) >= 14 && !bytes.Equal(results[i][14:], b) {
+						results[i] = append([]byte("AppendBodyTo disagrees with ToBytes: "), b...)
+					}
+				} else {
+					results[i] = msg.ToBytes()
+				}
+			}(i, pl)
+		}
+		close(start)
+		wg.Wait()
+		for i, pl := range plans {
+			want := e37.DataFrame(pl.s, stream, function, wbit, pl.y, bodyBytes).Bytes()
+			if err := sameFrame(body, results[i], want); err != nil {
+				rt.Fatalf("C03 violated: goroutine %d of %d (copy kind %d, made early=%v, AppendTo=%v) serialized concurrently for the first time: %v", i, n, pl.kind, pl.early, pl.appendT, err)
+			}
+		}
+		ev.Case(len(bodyBytes) > 0 && len(headers) >= 2, fmt.Sprint(stream, function, wbit, session, sys, n, len(bodyBytes), len(headers)), func() any {
+			return fmt.Sprintf("S%dF%d body %d bytes, %d goroutines, %d distinct headers", stream, function, len(bodyBytes), n, len(headers))
+		}, fmt.Sprintf("c03:concurrent:goroutines>=4:%v", n >= 4))
 	})
 }
